@@ -253,9 +253,9 @@ def ev_nary(op, node, ms):
             raise Invalid('key_zip needs two inputs')
         for mm in ms:
             if mm.cap_keys != 'req' or mm.cap_str != 'req' or mm.taint or mm.keys is None:
-                raise Invalid('key_zip needs unique, available keys')
-            if len(set(mm.keys)) != len(mm.keys):
-                raise Invalid('key_zip over duplicate keys')
+                raise Invalid('key_zip needs available keys')
+        # repeated keys (an over-sampling index selection) are fine: every input is asked by key, the first input
+        # dictates order and multiplicity
         if len({frozenset(mm.keys) for mm in ms}) != 1:
             raise Invalid('key_zip needs equal key sets')
         keys = list(ms[0].keys)
